@@ -222,6 +222,15 @@ func appendSnapshotFlavors(b []byte, s *slip.Scope) []byte {
 	for _, f := range fa {
 		b = append(b, '\n')
 		b = pp.Append(b, s, f.LoadForm())
+		// The methods defined on the flavor itself, inherited ones come with
+		// the flavor they are defined on.
+		for _, name := range f.MethodNames() {
+			for _, daemon := range []string{":primary", ":before", ":after", ":whopper"} {
+				if dml := f.DefMethodList(string(name.(slip.Symbol)), daemon, false); dml != nil {
+					b = pp.Append(b, s, dml)
+				}
+			}
+		}
 	}
 	return b
 }
